@@ -71,7 +71,7 @@ func (fv *FnVerifier) lemmaCall(ce *CEnv, text string, st *State) {
 		}
 	}
 	if fc == nil && obj != nil {
-		fc = fv.eng.externContract(obj)
+		fc = fv.externContract(obj)
 	}
 	if obj == nil || fc == nil {
 		unsupported("lemma call %q: function or its contract not found", text)
